@@ -184,6 +184,43 @@ func checkC07(p *Prog, r *Report) {
 	}
 	r.Check(!errUsedBad, kp("PANIC", "burn.EndBlock#error-swallowed"), "the burn's error is logged, never returned or turned into a panic", p.Pos(burnCall.Pos()), "error only inspected/logged", "the burn error propagates out of EndBlock")
 
+	// no implicit panic on unbounded amounts: over the module functions reachable from EndBlock, narrowing a math.Int to a machine
+	// integer needs a dominating IsInt64/IsUint64 (a balance above the machine range would abort the burn of every denomination —
+	// halting the block, or, behind a recover, silently leaving the address full)
+	{
+		reach := p.ReachFrom([]*ssa.Function{end}, func(f *ssa.Function) bool { return InModule(f) && !p.IsGenerated(f) })
+		nNarrow := 0
+		for _, fn := range reach.Order {
+			if !InModule(fn) {
+				continue
+			}
+			var o *Origin
+			var fa *Facts
+			for _, cs := range callSites(fn) {
+				guard := isNarrowingIntCall(cs.Name)
+				if guard == "" {
+					continue
+				}
+				nNarrow++
+				if o == nil {
+					o = NewOrigin(p, fn)
+					fa = NewFacts(p, fn, o)
+				}
+				ok, wit := false, ""
+				if args := cs.Instr.Common().Args; len(args) > 0 {
+					recv := o.Of(args[0])
+					wit, ok = fa.DominatingFact(cs.Instr.(ssa.Instruction), true, func(t *Term) bool {
+						return t.Op == "call" && strings.HasSuffix(t.Name, ")."+guard) && len(t.Args) > 0 && t.Args[0].Eq(recv)
+					})
+				}
+				r.Check(ok, kp("PANIC", "burn.EndBlock→"+FuncName(fn)+"→"+cs.Name), "amounts at the burn address are unbounded: narrowing one to a machine integer on the burn path needs a dominating "+guard+"()", p.Pos(cs.Instr.Pos()),
+					"dominated by "+wit, FuncName(fn)+" calls "+cs.Name+" with no dominating "+guard+"(): a spendable amount above the machine range aborts the burn before any coin is moved")
+			}
+		}
+		r.OK(kp("PANIC", "burn.EndBlock#no-unguarded-narrowing"), "amounts at the burn address are unbounded: no unguarded narrowing to a machine integer on the burn path", p.FnPos(end),
+			fmt.Sprintf("%d functions reachable from EndBlock, %d narrowing calls (each listed separately)", len(reach.Order), nNarrow))
+	}
+
 	// D2 inside the burn function
 	o := NewOrigin(p, bfn)
 	fa := NewFacts(p, bfn, o)
@@ -294,6 +331,67 @@ func checkC07(p *Prog, r *Report) {
 	}
 	r.Check(okAfter, kp("WIRE", "endblockers#burn-after-coin-movers"), "the burn end-blocker runs after every module whose end-blocker can move coins (only the coin-less custom modules may follow it)", "app/app.go",
 		fmt.Sprintf("modules after burn: %v", after), fmt.Sprintf("modules whose EndBlock runs after the burn: %v — coins they send to the burn address (executed proposals, unbonding, …) remain spendable there at the end of the block", after))
+	// invariants registered by the module's own code are evaluated by x/crisis' end-blocker; crisis runs before burn, so an
+	// invariant that reads the burn address's balance sees the block's deposits before they are burned
+	{
+		ci := indexOf(eb, "crisis")
+		nInv := 0
+		for _, fn := range p.ModFuncs {
+			if !InPkgs(fn, "x") || p.IsGenerated(fn) {
+				continue
+			}
+			for _, cs := range callSites(fn) {
+				if !strings.HasSuffix(cs.Name, "InvariantRegistry.RegisterRoute") {
+					continue
+				}
+				nInv++
+				args := cs.Instr.Common().Args
+				var roots []*ssa.Function
+				if len(args) >= 3 {
+					switch x := args[2].(type) {
+					case *ssa.MakeClosure:
+						roots = append(roots, x.Fn.(*ssa.Function))
+					case *ssa.Function:
+						roots = append(roots, x)
+					case *ssa.Call:
+						if c := x.Call.StaticCallee(); c != nil {
+							roots = append(roots, c)
+							roots = append(roots, c.AnonFuncs...)
+						}
+					}
+				}
+				key := kp("INV", "invariant-registered-by:"+FuncName(fn)+"@"+blockTag(fn, cs.Instr.Block()))
+				if len(roots) == 0 {
+					r.Undecided(key, "an invariant registered by module code does not read the burn address's balance while crisis runs before burn", p.Pos(cs.Instr.Pos()), "the invariant function is not a closure, a function or the result of a module constructor")
+					continue
+				}
+				reach := p.ReachFrom(roots, func(f *ssa.Function) bool { return InModule(f) })
+				hit := ""
+				for _, f := range reach.Order {
+					if !InModule(f) {
+						continue
+					}
+					fo := NewOrigin(p, f)
+					for _, c2 := range callSites(f) {
+						n := c2.Name
+						if !(strings.HasSuffix(n, ".SpendableCoins") || strings.HasSuffix(n, ".SpendableCoin") || strings.HasSuffix(n, ".GetBalance") || strings.HasSuffix(n, ".GetAllBalances") || strings.HasSuffix(n, ".LockedCoins")) {
+							continue
+						}
+						for _, a := range c2.Instr.Common().Args {
+							if fo.Of(a).Contains(func(t *Term) bool { return t.Op == "const" && t.Name == addrC }) {
+								hit = FuncName(f) + " reads " + n + " of the burn address at " + p.Pos(c2.Instr.Pos())
+							}
+						}
+					}
+				}
+				bad := hit != "" && ci >= 0 && bi >= 0 && ci < bi
+				r.Check(!bad, key, "an invariant registered by module code does not read the burn address's balance while crisis runs before burn", p.Pos(cs.Instr.Pos()),
+					fmt.Sprintf("%d functions reachable from the invariant, no balance read of the burn address", len(reach.Order)),
+					fmt.Sprintf("%s; x/crisis evaluates registered invariants in its end-blocker (position %d), before the burn end-blocker (position %d): whatever was deposited during the block is still there, the invariant is reported broken and the node panics", hit, ci, bi))
+			}
+		}
+		r.Count("invariants-registered-by-custom-modules", nInv)
+	}
 	r.Check(has(w.Manager, Rel("x/burn")), kp("WIRE", "manager∋burn"), "the burn module is registered in the module manager", p.Pos(w.ManagerPos), "present", "burn.NewAppModule is not passed to module.NewManager")
 	// keeper built from the bank keeper
 	initK := p.Method(Rel("app/keepers"), "AppKeepersWithKey", "InitKeyAndKeepers")
